@@ -114,8 +114,11 @@ def make_builtins():
         return [(i + start, v) for i, v in enumerate(it.iterate(x))]
 
     @reg("zip")
-    def _zip(it, *xs):
-        return list(zip(*[it.iterate(x) for x in xs]))
+    def _zip(it, *xs, strict=False):
+        lists = [it.iterate(x) for x in xs]
+        if strict and len({len(l) for l in lists}) > 1:
+            raise it.exc("ValueError", "zip() arguments have different lengths")
+        return list(zip(*lists))
 
     @reg("sorted")
     def _sorted(it, x, key=None, reverse=False):
